@@ -1,5 +1,22 @@
 import Spine.Heap
 open Spine Spine.Heap
+/-! Line protocol for the store / sharing model (C04, C11). One op per line, one answer per line.
+
+    cfg <fastpathRemote> <mergeStrict> <selNilPanics> <emptySelPanics> <inplaceAltersFlag>   (0/1 each)  -> ok
+    shape <n> <keys> <flag> <selMap> <elN> <elMap>                                       -> ok
+        keys   = `-` or `idx:kind,...` (kind u|s|t = uint, string, struct)
+        flag   = `-` or index
+        selMap / elMap = `.` or comma list of index / `-`
+    reset                                   -> reset      (heap only; cfg and shape stay)
+    copy                                    -> <struct id> | nil
+    upd <remote> <persist> <items> <fpk> <fps> <fpe> <fdk> <fds> <fde>
+        items = `.` or `;`-separated items, an item = comma list of value / `-`
+        f?k   = N (nil pointer) | E (filter without data) | F (filter with data); f?s selector item or N; f?e elements item or N
+                                            -> panic | ok=<0|1> in=<struct id> ret=<struct id|nil>
+    read <struct id>                        -> items
+    store                                   -> items of the stored value
+    dump                                    -> the items of every struct, in id order, separated by `|`
+-/
 def parseOpt (s : String) : Option Nat := if s == "-" then none else s.toNat?
 def parseItem (s : String) : Item := if s == "" then [] else (s.splitOn ",").map parseOpt
 def parseList (s : String) : List Item := if s == "." then [] else (s.splitOn ";").map parseItem
@@ -7,22 +24,58 @@ def parseOptItem (s : String) : Option Item := if s == "N" then none else some (
 def showOpt : Option Nat → String | none => "-" | some n => toString n
 def showItem (it : Item) : String := ",".intercalate (it.map showOpt)
 def showList (l : List Item) : String := if l.isEmpty then "." else ";".intercalate (l.map showItem)
-def parseFilter (k sel el : String) : Option Filter :=
-  if k == "N" || k == "E" then none else some { sel := parseOptItem sel, el := parseOptItem el }
-def shape : Shape := { n := 5, keys := [(0, .uint)], flag := some 1, selMap := [some 0], elN := 5, elMap := [some 0, some 1, some 2, some 3, some 4] }
-partial def loop (inp out : IO.FS.Stream) (h : H) : IO Unit := do
+def parseFArg (k sel el : String) : Option FArg :=
+  if k == "N" then some .nil else if k == "E" then some .nodata
+  else if k == "F" then some (.data { sel := parseOptItem sel, el := parseOptItem el }) else none
+def parseBool (s : String) : Option Bool := if s == "1" then some true else if s == "0" then some false else none
+def parseMap (s : String) : List (Option Nat) := if s == "." then [] else (s.splitOn ",").map parseOpt
+def parseKind (s : String) : Option KeyKind :=
+  if s == "u" then some .uint else if s == "s" then some .str else if s == "t" then some .struct else none
+def parseKeys (s : String) : Option (List (Nat × KeyKind)) :=
+  if s == "-" then some [] else
+  (s.splitOn ",").mapM fun p => match p.splitOn ":" with
+    | [i, k] => match i.toNat?, parseKind k with
+      | some i, some k => some (i, k)
+      | _, _ => none
+    | _ => none
+
+structure St where
+  cfg : Cfg := {}
+  sh : Shape := { n := 5, keys := [(0, .uint)], flag := some 1, selMap := [some 0], elN := 5, elMap := [some 0, some 1, some 2, some 3, some 4] }
+  h : H := {}
+
+def step (st : St) (line : String) : St × String :=
+  match line.trimAscii.toString.splitOn " " with
+  | ["cfg", a, b, c, d, e] => match parseBool a, parseBool b, parseBool c, parseBool d, parseBool e with
+    | some a, some b, some c, some d, some e =>
+      ({ st with cfg := { fastpathRemote := a, u := { mergeStrict := b, selNilPanics := c, emptySelPanics := d, inplaceAltersFlag := e } } }, "ok")
+    | _, _, _, _, _ => (st, "bad-op")
+  | ["shape", n, keys, flag, selMap, elN, elMap] => match n.toNat?, parseKeys keys, elN.toNat? with
+    | some n, some keys, some elN =>
+      ({ st with sh := { n := n, keys := keys, flag := parseOpt flag, selMap := parseMap selMap, elN := elN, elMap := parseMap elMap } }, "ok")
+    | _, _, _ => (st, "bad-op")
+  | ["copy"] => let (h', c) := dataCopy st.h; ({ st with h := h' }, match c with | some c => toString c | none => "nil")
+  | ["upd", remote, persist, nw, fpk, fps, fpe, fdk, fds, fde] =>
+    match parseBool remote, parseBool persist, parseFArg fpk fps fpe, parseFArg fdk fds fde with
+    | some remote, some persist, some fp, some fd =>
+      let (h', r) := updateData st.cfg st.sh st.h remote persist (parseList nw) fp fd
+      ({ st with h := h' }, match r with
+        | .panic => "panic"
+        | .done ok i o => s!"ok={if ok then 1 else 0} in={i} ret={match o with | some o => toString o | none => "nil"}")
+    | _, _, _, _ => (st, "bad-op")
+  | ["read", s] => match s.toNat? with
+    | some s => (st, showList (st.h.readStruct s))
+    | none => (st, "bad-op")
+  | ["store"] => (st, showList st.h.readStore)
+  | ["dump"] => (st, "|".intercalate ((List.range st.h.structs.length).map fun s => showList (st.h.readStruct s)))
+  | ["reset"] => ({ st with h := {} }, "reset")
+  | _ => (st, "bad-op")
+
+partial def loop (inp out : IO.FS.Stream) (st : St) : IO Unit := do
   let line ← inp.getLine
   if line.isEmpty then out.flush; return ()
-  let (h', ans) : H × String := match line.trimAscii.toString.splitOn " " with
-    | ["full", items] => let (h', s) := full h (parseList items); (h', toString s)
-    | ["copy"] => let (h', c) := dataCopy h; (h', match c with | some c => toString c | none => "nil")
-    | ["upd", remote, persist, nw, fpk, fps, fpe, fdk, fds, fde] =>
-      let (h', r) := update shape h (remote == "1") (persist == "1") (parseList nw) (parseFilter fpk fps fpe) (parseFilter fdk fds fde)
-      (h', match r with | none => "panic" | some b => if b then "ok=1" else "ok=0")
-    | ["read", s] => (h, showList (h.readStruct s.toNat!))
-    | ["reset"] => ({}, "reset")
-    | _ => (h, "bad-op")
+  let (st', ans) := step st line
   out.putStrLn ans
   out.flush
-  loop inp out h'
+  loop inp out st'
 def main : IO Unit := do loop (← IO.getStdin) (← IO.getStdout) {}
